@@ -27,7 +27,11 @@ VARIABLES tid, l, step, rank, status, verdict
 tvars == <<tid, l, step, rank, status, verdict>>
 T == Traces[tid]
 
-TInit == /\ tid \in 1..Len(Traces) /\ l = 1 /\ step = 0 /\ rank = -1
+\* the objective BEFORE the first iteration (rank0, the starting model's) takes part in Monotone when the recorder says
+\* that the starting model is the one the first iteration was entered with (fromStart): the first EM iteration ascends
+\* like every other one.  Recorders whose starting point is not an explicit model leave it out (rank = -1: no comparison).
+TInit == /\ tid \in 1..Len(Traces) /\ l = 1 /\ step = 0
+         /\ rank = (IF "fromStart" \in DOMAIN Traces[tid] /\ Traces[tid].fromStart THEN Traces[tid].rank0 ELSE -1)
          /\ status = "run" /\ verdict = "ok"
 
 Worse(r1, r0, dir) == IF dir = "up" THEN r1 < r0 ELSE IF dir = "down" THEN r1 > r0 ELSE FALSE
